@@ -57,6 +57,7 @@ type replayFile struct {
 	Detail   string   `json:"detail"`
 	Tape     []uint32 `json:"tape"`
 	Cold     bool     `json:"cold_start,omitempty"` // replay in a process that parsed nothing before (worker flag -cold)
+	GMP      string   `json:"gomaxprocs,omitempty"` // GOMAXPROCS of the worker process that found it
 	Window   []int    `json:"window,omitempty"`     // [from,to]: run indices to execute in one process when no single tape reproduces
 	TapeLen0 int      `json:"tape_len_before_shrinking"`
 	Trace    []string `json:"trace"`
@@ -278,10 +279,11 @@ func cmdCheck(id string, tier string, replayPath string) int {
 			if v.Cold {
 				replayExtra = []string{"-cold"}
 			}
+			replayGMP = v.GMP
 			tape0 := len(v.Tape)
 			sv, tries := shrink(bin, id, v, 90*time.Second)
 			rf := replayFile{Property: id, Seed: seed, RunIndex: v.I, RunSeed: v.Seed, Tier: tier, Class: sv.Viol.Class, Key: sv.Viol.Key,
-				Detail: sv.Viol.Detail, Tape: sv.Tape, TapeLen0: tape0, Trace: sv.Sample, Schedule: sv.Sched, Race: sv.Race, Cold: v.Cold}
+				Detail: sv.Viol.Detail, Tape: sv.Tape, TapeLen0: tape0, Trace: sv.Sample, Schedule: sv.Sched, Race: sv.Race, Cold: v.Cold, GMP: v.GMP}
 			os.MkdirAll(filepath.Join(verifDir, "replays"), 0o755)
 			path := filepath.Join(verifDir, "replays", fmt.Sprintf("%s-%d-%d.json", id, seed, v.I))
 			jb, _ := json.MarshalIndent(rf, "", " ")
@@ -370,6 +372,7 @@ func cmdReplay(c *checkCtx, path string) int {
 	if rf.Cold {
 		replayExtra = []string{"-cold"}
 	}
+	replayGMP = rf.GMP
 	if p.pre != nil {
 		p.pre(c)
 	}
